@@ -555,8 +555,8 @@ func (c *Check) minimise(v *Violation, budget time.Duration) (*plan.Plan, *Viola
 	}
 	// 3. drop ops (from the end, then the beginning)
 	for pass := 0; pass < 2; pass++ {
-		for ti := range best.Tasks {
-			for oi := len(best.Tasks[ti]) - 1; oi >= 0; oi-- {
+		for ti := 0; ti < len(best.Tasks); ti++ {
+			for oi := len(best.Tasks[ti]) - 1; oi >= 0 && ti < len(best.Tasks); oi-- {
 				ti, oi := ti, oi
 				try(func(q *plan.Plan) bool {
 					if ti >= len(q.Tasks) || oi >= len(q.Tasks[ti]) {
@@ -593,8 +593,8 @@ func (c *Check) minimise(v *Violation, budget time.Duration) (*plan.Plan, *Viola
 		q.Sink = "null"
 		return true
 	})
-	for ti := range best.Tasks {
-		for oi := range best.Tasks[ti] {
+	for ti := 0; ti < len(best.Tasks); ti++ {
+		for oi := 0; ti < len(best.Tasks) && oi < len(best.Tasks[ti]); oi++ {
 			ti, oi := ti, oi
 			try(func(q *plan.Plan) bool {
 				if ti >= len(q.Tasks) || oi >= len(q.Tasks[ti]) {
@@ -1243,6 +1243,22 @@ func (c *Check) confirm(v *Violation) *Violation {
 		return v
 	}
 	nv := c.reproduces(v.Plan, v.Class)
+	if nv == nil && strings.HasPrefix(v.Class, "race:") {
+		// whether the detector prints a report depends on state of the race
+		// runtime no seam controls; it never invents one. One more sighting
+		// in up to 8 further executions of the same plan confirms it.
+		for i := 0; i < 8 && nv == nil; i++ {
+			pr := c.env.Run(v.Plan)
+			j := c.judge(c, v.Plan, pr)
+			for k := range j.Violations {
+				if sameClass(v.Class, j.Violations[k].Class) {
+					nv = &j.Violations[k]
+					nv.Class = v.Class
+					break
+				}
+			}
+		}
+	}
 	if nv == nil {
 		if len(c.env.Uncontrol) > 0 {
 			c.count("dropped_unreproducible_with_uncontrolled_sources", 1)
